@@ -4,9 +4,10 @@
      Field.rotate90   (field.py)   - numpy.rot90 on data and validity (an index map built from flip and
                                       transpose exactly as numpy builds it), 2x2 rotation of the two
                                       components that the reversed vdim_mapping assigns to the two axes
-   The implementation evaluates cos/sin(k*pi/2) in floating point; the model uses the exact
+   Region.rotate90 evaluates cos/sin(k*pi/2) in floating point; the model uses the exact
    quarter turn (c,s) selected by k mod 4 (the residue, <= (1+|k|)*2e-16 relative, is what the
-   correspondence tolerance absorbs).  Copying and in-place forms are separate code paths and are
+   correspondence tolerance absorbs).  Field.rotate90 selects the exact (cos, sin) pair by k % 4,
+   so the component rotation is exact in the implementation as well.  Copying and in-place forms are separate code paths and are
    modelled separately ([inplace] flag).  Definitions only. *)
 From DF Require Import Prelude FieldK NDArray Region Mesh.
 Open Scope Q_scope.
@@ -67,7 +68,9 @@ Definition region_rotate90 (inplace : bool) (r : region) (a b : string) (k : Z)
   let p2 := rot_pt c s i1 i2 R (pmax r) in
   let us := rot_units k i1 i2 (units r) in
   if inplace
-  then OK (mkRegion (map2 Qmin p1 p2) (map2 Qmax p1 p2) (dims r) us (tf r))
+  then (* in place: zero-edge test on p2 - p1, then min/max, units assigned *)
+       if existsb (fun e => Qeq_bool e 0) (edges_of p1 p2) then Err ValueE
+       else OK (mkRegion (map2 Qmin p1 p2) (map2 Qmax p1 p2) (dims r) us (tf r))
   else mk_region p1 p2 (Some (dims r)) (Some us) (tf r).
 
 (* ---------- Mesh.rotate90 ---------- *)
@@ -165,15 +168,20 @@ Definition fshape {K} (f : field K) : list nat := znat (n (fmesh f)).
 
 Definition field_rotate90 (K : FOps) (inplace : bool) (f : field K) (a b : string) (k : Z)
            (ref : option (list Q)) : res (field K) :=
-  do m' <- mesh_rotate90 inplace (fmesh f) a b k ref;
   do i1 <- dim2index (reg (fmesh f)) a;
   do i2 <- dim2index (reg (fmesh f)) b;
+  (* the mapped components are looked up before anything is modified *)
+  do vv <- (if (1 <? nvdim f)%nat
+            then do v1 <- comp_of (vdims f) (vmap f) a;
+                 do v2 <- comp_of (vdims f) (vmap f) b;
+                 OK (Some (v1, v2))
+            else OK None);
+  do m' <- mesh_rotate90 inplace (fmesh f) a b k ref;
   let sh := fshape f in
   let val := rot90 (sh ++ [nvdim f]) i1 i2 k (fval f) in
   let vld := rot90 sh i1 i2 k (fvalid f) in
-  do val' <- (if (1 <? nvdim f)%nat
-              then do v1 <- comp_of (vdims f) (vmap f) a;
-                   do v2 <- comp_of (vdims f) (vmap f) b;
-                   OK (rot_comp K (fst (kturn K k)) (snd (kturn K k)) v1 v2 val)
-              else OK val);
+  let val' := match vv with
+              | Some (v1, v2) => rot_comp K (fst (kturn K k)) (snd (kturn K k)) v1 v2 val
+              | None => val
+              end in
   OK (mkField m' (nvdim f) val' vld (vdims f) (vmap f)).
